@@ -69,23 +69,27 @@ class FramePipe:
             self.waiter.set_result(None)
 
     def feed(self, msg):
+        if self.eof or self.err is not None:
+            return                      # the server end is gone: it sends nothing any more
         self.q.append(Frame(msg))
         self._wake()
 
     def feed_eof(self):
-        self.eof = True
+        if self.err is None:
+            self.eof = True
         self._wake()
 
     def feed_error(self, exc):
-        self.err = exc
+        if not self.eof and self.err is None:
+            self.err = exc
         self._wake()
 
     async def next(self):
         while True:
+            if self.err is not None:        # like StreamReader: a reset wins over data that is still buffered
+                raise self.err
             if self.q:
                 return self.q.popleft()
-            if self.err is not None:
-                raise self.err
             if self.eof:
                 raise asyncio.IncompleteReadError(b'', 4)
             self.waiter = self.loop.create_future()
@@ -100,15 +104,21 @@ class BytePipe:
 
     def __init__(self, loop):
         self.reader = asyncio.StreamReader(loop=loop)
+        self.gone = False
 
     def feed(self, msg):
-        self.reader.feed_data(msg.serialize())
+        if not self.gone:
+            self.reader.feed_data(msg.serialize())
 
     def feed_eof(self):
-        self.reader.feed_eof()
+        if not self.gone:
+            self.gone = True
+            self.reader.feed_eof()
 
     def feed_error(self, exc):
-        self.reader.set_exception(exc)
+        if not self.gone:
+            self.gone = True
+            self.reader.set_exception(exc)
 
 
 class Writer:
